@@ -9,6 +9,8 @@ package main
 
 import (
 	"fmt"
+	"go/ast"
+	"go/token"
 	"go/types"
 	"math/big"
 	"regexp"
@@ -283,6 +285,7 @@ func checkC13(p *Prog, r *Report) {
 	c13Weather(p, r)
 	c13Rotation(p, r)
 	c13StaleItem(p, r)
+	c13Headers(p, r, "C13.headers")
 }
 
 func short(k string) string { return strings.TrimPrefix(k, "hermes.") }
@@ -724,6 +727,64 @@ func c13StaleItem(p *Prog, r *Report) {
 		}
 		if bad == 0 {
 			r.Ob(short(key), "-", true, "no record-derived local survives from one record to the next")
+		}
+	}
+}
+
+// c13Headers: csv columns are bound to quantities by header name.  The store
+// that records a column's position must be guarded by an exact comparison of
+// the header token with the known name (string equality or a map lookup by
+// the token); a prefix/substring predicate lets "BulkDensity" bind the
+// "BulkDensityClass" column.
+func c13Headers(p *Prog, r *Report, rule string) {
+	r.Rule(rule, "csv header resolution by exact name: in every header resolver the store of a column position is guarded by string equality of the header token with the known column name, or by a map lookup keyed by the token, and by no prefix/substring predicate", 3)
+	for _, key := range []string{"hermes.readSoilHeader", "hermes.readHeader", "hermes.ExtractMeasuredDataCSV"} {
+		x := walked(p, key)
+		if x == nil {
+			r.Ob(short(key), "-", false, "header resolver not found")
+			continue
+		}
+		n := 0
+		for _, e := range x.Events {
+			if e.Kind != "assign" || len(e.Idx) != 1 || !(e.Root == "headers" || strings.HasSuffix(e.Root, "eaders") || strings.HasSuffix(e.Root, "eader")) {
+				continue
+			}
+			n++
+			exact, fuzzy := false, ""
+			for _, g := range flattenGuards(e.Guards) {
+				switch g.Kind {
+				case "cmp":
+					if g.Op == token.EQL && len(g.P.T) == 2 {
+						exact = true
+					}
+				case "opq":
+					if strings.Contains(g.Text, "strings.") || strings.Contains(g.Text, "HasPrefix") || strings.Contains(g.Text, "Contains") {
+						fuzzy = g.Text
+					} else if ie, isIdx := g.Expr.(*ast.IndexExpr); isIdx {
+						// comma-ok of a map lookup keyed by the token
+						if _, isMap := x.Info.TypeOf(ie.X).Underlying().(*types.Map); isMap {
+							exact = true
+						}
+					} else if id, isId := g.Expr.(*ast.Ident); isId {
+						// the ok variable of "v, ok := m[token]"
+						_ = id
+						if strings.Contains(g.Text, "[") && strings.Contains(g.Text, "]") {
+							exact = true
+						}
+					}
+				}
+			}
+			ok := exact && fuzzy == ""
+			det := "column position stored under an exact name match"
+			if fuzzy != "" {
+				det = "column position stored under the inexact predicate " + clip(fuzzy, 80) + ": a longer column name with the same prefix binds this quantity"
+			} else if !exact {
+				det = "no exact name comparison guards the store of the column position"
+			}
+			r.Ob(short(key)+":position", p.Pos(e.Pos), ok, det)
+		}
+		if n == 0 {
+			r.Ob(short(key)+":position", "-", false, "the resolver never stores a column position")
 		}
 	}
 }
